@@ -18,6 +18,8 @@ var Registry = map[string]func(tier string) int{
 	"C14": C14,
 	"C15": C15,
 	"C16": C16,
+	"C17": C17,
+	"C18": C18,
 	"C19": C19,
 	"C20": C20,
 }
@@ -29,6 +31,8 @@ func Probe(name string) int {
 		return ProbeFkCycle("self")
 	case "fkcycle-two":
 		return ProbeFkCycle("two")
+	case "race":
+		return RaceBodies()
 	}
 	return 2
 }
